@@ -266,6 +266,25 @@ def check_narrow_integers(ctx, ns, path, N, rng):
             ctx.close(nm + "_integer_image_integer_spacing", got, want.astype(got.dtype), 1e-10 * sc, nm + ":integer_image_integer_spacing", wit, scale=sc)
 
 
+def check_spacing_objects(ctx, ns, path, N, rng):
+    """The spacings handed over as 0-d / 1-element arrays and used for several calls: every call is the same inverse pair."""
+    for mk, nmk in ((lambda v: np.asarray(v), "0d_array"), (lambda v: np.array([v]), "1_element_array"), (lambda v: np.float32(v), "float32_scalar")):
+        d = float(rng.choice([0.25, 0.5, 2.0]))
+        delta, delta_f = mk(d), mk(1.0 / (N * d))
+        keep = (np.array(delta, copy=True), np.array(delta_f, copy=True))
+        wit = {"path": path, "N": N, "spacing_as": nmk, "delta": d}
+        ctx.case("spacing_object", key=(path, N, nmk, d), nontrivial=True, sample=wit)
+        tolr = 1e-5 if nmk == "float32_scalar" else 1e-11
+        for nm, f, g, shape in (("ft2", ns.ft2, ns.ift2, (N, N)), ("ft", ns.ft, ns.ift, (N,))):
+            x = rng.standard_normal(shape) + 1j * rng.standard_normal(shape)
+            for call in range(3):
+                back = g(f(x, delta), delta_f)
+                ctx.close(nm + "_inverse_pair_spacing_object", np.asarray(back).reshape(shape), x, tolr * float(np.abs(x).max()) * N,
+                          nm + ":inverse_pair:spacing_object_reused", dict(wit, call=call))
+            ctx.check(np.array_equal(np.asarray(delta), keep[0]) and np.array_equal(np.asarray(delta_f), keep[1]), nm + ":spacing_argument_modified",
+                      "the spacing passed as %s was changed by the call" % nmk, wit)
+
+
 def check_deep_stack(ctx, ns, path, rng):
     """More than 2^20 samples in one stack, frame count not a power of two: every frame is transformed."""
     k, n = int(rng.choice([1500, 1100])), 32
@@ -324,5 +343,7 @@ def run(ctx, spec):
                 check_gaussian(ctx, ns, path, N, rng)
                 if N in (8, 16, 33):
                     check_narrow_integers(ctx, ns, path, N, rng)
+                if N in (7, 8, 16, 33) and rep == 0:
+                    check_spacing_objects(ctx, ns, path, N, rng)
         if spec["shard"] in (3, 11) and rep == 0:
             check_deep_stack(ctx, mod_ns if spec["shard"] == 3 else top_ns, "module" if spec["shard"] == 3 else "top_level", rng)
